@@ -96,213 +96,219 @@ def run(index, rep, tier):
     index.klass(TA)
 
     # ---- R06.1
-    nops = 0
-    for fi in index.methods_of(TA):
-        nops += parallel_lists_rule(rep, "R06.1", fi, TREE_LISTS)
-    rep.floor("R06.1", "length-changing operations on the per-tree lists", 14, nops)
+    with rep.section("R06.1"):
+        nops = 0
+        for fi in index.methods_of(TA):
+            nops += parallel_lists_rule(rep, "R06.1", fi, TREE_LISTS)
+        rep.floor("R06.1", "length-changing operations on the per-tree lists", 14, nops)
 
     # ---- R06.2
-    pairs = [
-        (SD + ".count_splits_on_tree", [SD + ".update"]),
-        (TA + ".add_tree", [TA + ".update", TA + ".extend"]),
-    ]
-    for acc, merges in pairs:
-        afi = index.function(acc)
-        acc_fields = self_fields_touched(index, afi)
-        rep.floor("R06.2", "fields written by " + acc, 4, len(acc_fields))
-        for mq in merges:
-            mfi = index.function(mq)
-            merged = self_fields_touched(index, mfi)
-            guarded = fields_in_rejections(mfi)
-            for f in sorted(acc_fields):
-                ok = f in merged or f in guarded or ("_" + f) in guarded or f.lstrip("_") in guarded
-                rep.check(ok, "R06.2", mfi.qualname, "field %s not merged" % f, fn_where(mfi),
-                          "%s merges field %s written by %s" % (mfi.name, f, afi.name),
-                          "%s accumulates into self.%s for every tree but %s neither merges nor compares that field: data of partitioned runs is silently lost"
-                          % (afi.qualname, f, mfi.qualname))
+    with rep.section("R06.2"):
+        pairs = [
+            (SD + ".count_splits_on_tree", [SD + ".update"]),
+            (TA + ".add_tree", [TA + ".update", TA + ".extend"]),
+        ]
+        for acc, merges in pairs:
+            afi = index.function(acc)
+            acc_fields = self_fields_touched(index, afi)
+            rep.floor("R06.2", "fields written by " + acc, 4, len(acc_fields))
+            for mq in merges:
+                mfi = index.function(mq)
+                merged = self_fields_touched(index, mfi)
+                guarded = fields_in_rejections(mfi)
+                for f in sorted(acc_fields):
+                    ok = f in merged or f in guarded or ("_" + f) in guarded or f.lstrip("_") in guarded
+                    rep.check(ok, "R06.2", mfi.qualname, "field %s not merged" % f, fn_where(mfi),
+                              "%s merges field %s written by %s" % (mfi.name, f, afi.name),
+                              "%s accumulates into self.%s for every tree but %s neither merges nor compares that field: data of partitioned runs is silently lost"
+                              % (afi.qualname, f, mfi.qualname))
 
     # ---- R06.6 merge copies, never aliases
-    rep.rule("R06.6", "merging never aliases: a merge function does not store an element of the argument's containers (a per-split list) into self without copying")
-    nst = 0
-    for mq in (SD + ".update", TA + ".update", TA + ".extend"):
-        mfi = index.function(mq)
-        other = [p for p in mfi.params if p != "self"][0]
-        for n in walk_no_nested(mfi.node):
-            if isinstance(n, ast.Assign) and len(n.targets) == 1:
-                t = n.targets[0]
-                root = t
-                while isinstance(root, (ast.Attribute, ast.Subscript)):
-                    root = root.value
-                if not (isinstance(root, ast.Name) and root.id == "self"):
-                    continue
-                nst += 1
-                v = n.value
-                alias = isinstance(v, ast.Subscript) and not isinstance(v.slice, ast.Slice) and _root_of(v) == other
-                if isinstance(v, ast.Call) and call_name(v) in ("get", "setdefault", "pop") and _root_of(v.func) == other:
-                    alias = True
-                if isinstance(t, ast.Subscript) and isinstance(v, ast.Name) and v.id in tainted_names(mfi, [other]) and v.id != other:
-                    alias = True   # an element obtained by iterating the argument's containers
-                rep.check(not alias, "R06.6", mfi.qualname, "aliases argument element: " + norm_stmt(n)[:70], fn_where(mfi, n), "%s: `%s` does not alias a mutable element of the argument" % (mfi.name, norm_stmt(n)[:50]),
-                          "%s stores `%s`, the argument's own container element, into self without copying: a later merge into either collection also changes the other (the same sub-collection merged into two masters, or a + b followed by b + a, double-counts values)" % (mfi.qualname, norm(v)[:60]))
-    rep.floor("R06.6", "stores into self in the merge functions", 4, nst)
+    with rep.section("R06.6 merge copies, never aliases"):
+        rep.rule("R06.6", "merging never aliases: a merge function does not store an element of the argument's containers (a per-split list) into self without copying")
+        nst = 0
+        for mq in (SD + ".update", TA + ".update", TA + ".extend"):
+            mfi = index.function(mq)
+            other = [p for p in mfi.params if p != "self"][0]
+            for n in walk_no_nested(mfi.node):
+                if isinstance(n, ast.Assign) and len(n.targets) == 1:
+                    t = n.targets[0]
+                    root = t
+                    while isinstance(root, (ast.Attribute, ast.Subscript)):
+                        root = root.value
+                    if not (isinstance(root, ast.Name) and root.id == "self"):
+                        continue
+                    nst += 1
+                    v = n.value
+                    alias = isinstance(v, ast.Subscript) and not isinstance(v.slice, ast.Slice) and _root_of(v) == other
+                    if isinstance(v, ast.Call) and call_name(v) in ("get", "setdefault", "pop") and _root_of(v.func) == other:
+                        alias = True
+                    if isinstance(t, ast.Subscript) and isinstance(v, ast.Name) and v.id in tainted_names(mfi, [other]) and v.id != other:
+                        alias = True   # an element obtained by iterating the argument's containers
+                    rep.check(not alias, "R06.6", mfi.qualname, "aliases argument element: " + norm_stmt(n)[:70], fn_where(mfi, n), "%s: `%s` does not alias a mutable element of the argument" % (mfi.name, norm_stmt(n)[:50]),
+                              "%s stores `%s`, the argument's own container element, into self without copying: a later merge into either collection also changes the other (the same sub-collection merged into two masters, or a + b followed by b + a, double-counts values)" % (mfi.qualname, norm(v)[:60]))
+        rep.floor("R06.6", "stores into self in the merge functions", 4, nst)
 
     # ---- R06.3
-    nrej = 0
-    for name in ("update", "extend"):
-        fi = index.function(TA + "." + name)
-        other = [p for p in fi.params if p != "self"][0]
-        cfg = cfg_of(fi)
-        for n in cfg.nodes:
-            if n.kind != "test":
-                continue
-            mentions = [a for a, b, _ in attr_reads(n.ast) if a in ("_is_rooted_trees", "is_rooted_trees")]
-            if not mentions:
-                continue
-            if isinstance(n.stmt, ast.Assert):
-                rej_label = "f"
-            elif raises_in_branch(cfg, n, "t") is not None:
-                rej_label = "t"
-            elif raises_in_branch(cfg, n, "f") is not None:
-                rej_label = "f"
-            else:
-                continue
-            if emptiness_edge(n.ast, "self") or emptiness_edge(n.ast, other):
-                # this test is itself a "rooting is None" test, not a rejection comparison
-                cp = compare_parts(n.ast)
-                if cp and (is_none(cp[0]) or is_none(cp[2])):
+    with rep.section("R06.3"):
+        nrej = 0
+        for name in ("update", "extend"):
+            fi = index.function(TA + "." + name)
+            other = [p for p in fi.params if p != "self"][0]
+            cfg = cfg_of(fi)
+            for n in cfg.nodes:
+                if n.kind != "test":
                     continue
-            nrej += 1
-            for operand in ("self", other):
-                def edge_ok(src, lab, dst, operand=operand):
-                    if src.kind == "test":
-                        e = emptiness_edge(src.ast, operand)
-                        if e is not None and lab == e:
-                            return False
-                    return True
-                reach = cfg.reach([cfg.entry], follow_exc=False, edge_ok=edge_ok)
-                ok = all(x is not n for x in reach)
-                rep.check(ok, "R06.3", fi.qualname,
-                          "rooting rejection `%s` reachable with %s possibly empty" % (norm(n.ast), "self" if operand == "self" else "other"),
-                          fn_where(fi, n.stmt),
-                          "%s: rejection `%s` requires %s known non-empty" % (name, norm(n.ast), operand),
-                          "TreeArray.%s can reject on the rooting state (`%s`) on a path where `%s` was never established non-empty; an empty array has no rooting of its own "
-                          "(undefined while empty), so merging an idle worker's empty result, or into/onto an empty array, fails" % (name, norm(n.ast), operand))
-    rep.floor("R06.3", "rooting rejections in TreeArray.update/extend", 2, nrej)
+                mentions = [a for a, b, _ in attr_reads(n.ast) if a in ("_is_rooted_trees", "is_rooted_trees")]
+                if not mentions:
+                    continue
+                if isinstance(n.stmt, ast.Assert):
+                    rej_label = "f"
+                elif raises_in_branch(cfg, n, "t") is not None:
+                    rej_label = "t"
+                elif raises_in_branch(cfg, n, "f") is not None:
+                    rej_label = "f"
+                else:
+                    continue
+                if emptiness_edge(n.ast, "self") or emptiness_edge(n.ast, other):
+                    # this test is itself a "rooting is None" test, not a rejection comparison
+                    cp = compare_parts(n.ast)
+                    if cp and (is_none(cp[0]) or is_none(cp[2])):
+                        continue
+                nrej += 1
+                for operand in ("self", other):
+                    def edge_ok(src, lab, dst, operand=operand):
+                        if src.kind == "test":
+                            e = emptiness_edge(src.ast, operand)
+                            if e is not None and lab == e:
+                                return False
+                        return True
+                    reach = cfg.reach([cfg.entry], follow_exc=False, edge_ok=edge_ok)
+                    ok = all(x is not n for x in reach)
+                    rep.check(ok, "R06.3", fi.qualname,
+                              "rooting rejection `%s` reachable with %s possibly empty" % (norm(n.ast), "self" if operand == "self" else "other"),
+                              fn_where(fi, n.stmt),
+                              "%s: rejection `%s` requires %s known non-empty" % (name, norm(n.ast), operand),
+                              "TreeArray.%s can reject on the rooting state (`%s`) on a path where `%s` was never established non-empty; an empty array has no rooting of its own "
+                              "(undefined while empty), so merging an idle worker's empty result, or into/onto an empty array, fails" % (name, norm(n.ast), operand))
+        rep.floor("R06.3", "rooting rejections in TreeArray.update/extend", 2, nrej)
 
     # ---- R06.4 (shared)
-    c05.rule_sort_order(index, rep, "R06.4")
+    with rep.section("R06.4 (shared)"):
+        c05.rule_sort_order(index, rep, "R06.4")
 
     # ---- R06.5
-    run_fi = index.function(ST + ".TreeAnalysisWorker.run")
-    cfg = cfg_of(run_fi)
+    with rep.section("R06.5"):
+        run_fi = index.function(ST + ".TreeAnalysisWorker.run")
+        cfg = cfg_of(run_fi)
 
-    def is_put(n):
-        return any(call_name(c) == "put" and "results_queue" in norm(c.func) for c in node_calls(n))
+        def is_put(n):
+            return any(call_name(c) == "put" and "results_queue" in norm(c.func) for c in node_calls(n))
 
-    def not_kill_edge(src, lab, dst):
-        if src.kind == "test" and norm(src.ast) == "self.kill_received" and lab == "t":
-            return False
-        return True
-    puts = [n for n in cfg.nodes if is_put(n)]
-    rep.floor("R06.5", "results_queue.put sites in worker.run", 1, len(puts))
-    w = cfg.can_reach(cfg.entry, lambda n: n is cfg.exit, avoid=is_put, follow_exc=False, edge_ok=not_kill_edge)
-    rep.check(w is None, "R06.5", run_fi.qualname, "exit without results_queue.put", fn_where(run_fi),
-              "worker.run: every non-killed path to the normal exit passes results_queue.put",
-              "TreeAnalysisWorker.run can finish (kill_received false) without putting a result: the collation loop waits for num_processes results forever")
-    # a put inside the task loop must leave the loop (otherwise the same partial result is sent once per task and merged repeatedly)
-    for pn in puts:
-        heads = [h for l, h in cfg.loops.items() if _inside_loop_of(l, pn.stmt)]
-        again = any(cfg.can_reach(pn, lambda n, h=h: n is h) is not None for h in heads)
-        rep.check(not again, "R06.5", run_fi.qualname, "put repeated per task: " + norm_stmt(pn.stmt)[:60], fn_where(run_fi, pn.stmt),
-                  "worker.run: `%s` is executed at most once (it is outside the task loop or leaves it)" % norm_stmt(pn.stmt)[:50],
-                  "TreeAnalysisWorker.run puts a result inside the task loop and keeps looping (`%s`): the same growing tree array is reported once per task and the collation loop merges it repeatedly / counts it as several workers" % norm_stmt(pn.stmt)[:60])
-    # put inside the task loop must not be the only one: the final put must be outside any loop
-    final_puts = [n for n in puts if not _inside_loop(run_fi.node, n.stmt)]
-    rep.check(bool(final_puts), "R06.5", run_fi.qualname, "final put outside task loop", fn_where(run_fi),
-              "worker.run: the result is put once, after the task loop",
-              "the worker's tree array is only put from inside the task loop: a worker that receives no task never reports")
+        def not_kill_edge(src, lab, dst):
+            if src.kind == "test" and norm(src.ast) == "self.kill_received" and lab == "t":
+                return False
+            return True
+        puts = [n for n in cfg.nodes if is_put(n)]
+        rep.floor("R06.5", "results_queue.put sites in worker.run", 1, len(puts))
+        w = cfg.can_reach(cfg.entry, lambda n: n is cfg.exit, avoid=is_put, follow_exc=False, edge_ok=not_kill_edge)
+        rep.check(w is None, "R06.5", run_fi.qualname, "exit without results_queue.put", fn_where(run_fi),
+                  "worker.run: every non-killed path to the normal exit passes results_queue.put",
+                  "TreeAnalysisWorker.run can finish (kill_received false) without putting a result: the collation loop waits for num_processes results forever")
+        # a put inside the task loop must leave the loop (otherwise the same partial result is sent once per task and merged repeatedly)
+        for pn in puts:
+            heads = [h for l, h in cfg.loops.items() if _inside_loop_of(l, pn.stmt)]
+            again = any(cfg.can_reach(pn, lambda n, h=h: n is h) is not None for h in heads)
+            rep.check(not again, "R06.5", run_fi.qualname, "put repeated per task: " + norm_stmt(pn.stmt)[:60], fn_where(run_fi, pn.stmt),
+                      "worker.run: `%s` is executed at most once (it is outside the task loop or leaves it)" % norm_stmt(pn.stmt)[:50],
+                      "TreeAnalysisWorker.run puts a result inside the task loop and keeps looping (`%s`): the same growing tree array is reported once per task and the collation loop merges it repeatedly / counts it as several workers" % norm_stmt(pn.stmt)[:60])
+        # put inside the task loop must not be the only one: the final put must be outside any loop
+        final_puts = [n for n in puts if not _inside_loop(run_fi.node, n.stmt)]
+        rep.check(bool(final_puts), "R06.5", run_fi.qualname, "final put outside task loop", fn_where(run_fi),
+                  "worker.run: the result is put once, after the task loop",
+                  "the worker's tree array is only put from inside the task loop: a worker that receives no task never reports")
 
-    par = index.function(ST + ".TreeProcessor.parallel_analyze_trees")
-    loops = [n for n in walk_no_nested(par.node) if isinstance(n, ast.While)]
-    coll = [l for l in loops if any(call_name(c) == "get" and "results_queue" in norm(c.func) for c in calls_in(l))]
-    if len(coll) != 1:
-        raise AnalysisError("R06.5: collation loop in parallel_analyze_trees not found (shape not recognised)")
-    loop = coll[0]
-    cp = compare_parts(loop.test)
-    launch = [f for f in walk_no_nested(par.node) if isinstance(f, ast.For) and any(call_name(c) == "TreeAnalysisWorker" for c in calls_in(f))]
-    bound = None
-    if launch and isinstance(launch[0].iter, ast.Call) and call_name(launch[0].iter) == "range" and len(launch[0].iter.args) == 1:
-        bound = norm(launch[0].iter.args[0])
-    ok = bool(cp) and cp[1] == "Lt" and bound is not None and norm(cp[2]) == bound
-    rep.check(ok, "R06.5", par.qualname, "collation bound: " + norm(loop.test), fn_where(par, loop),
-              "collation loop `%s` waits for as many results as workers launched (range(%s))" % (norm(loop.test), bound),
-              "the collation loop's bound `%s` does not equal the number of workers launched (%s)" % (norm(loop.test), bound))
-    counter = norm(cp[0]) if cp else None
-    incs = [n for n in walk_no_nested(loop) if isinstance(n, ast.AugAssign) and norm(n.target) == counter]
-    ok = len(incs) == 1 and isinstance(incs[0].op, ast.Add) and const_value(incs[0].value) == 1
-    rep.check(ok, "R06.5", par.qualname, "collation counter increment", fn_where(par, loop),
-              "result counter advances by exactly 1 per merged result", "the result counter is not advanced by exactly one per result")
-    # result variable only flows to isinstance / raise / update / attribute reads
-    res_names = set()
-    for n in walk_no_nested(loop):
-        if isinstance(n, ast.Assign) and isinstance(n.value, ast.Call) and call_name(n.value) == "get" and "results_queue" in norm(n.value.func):
-            res_names |= {t.id for t in n.targets if isinstance(t, ast.Name)}
-    pm = {}
-    for p in ast.walk(loop):
-        for c in ast.iter_child_nodes(p):
-            pm[c] = p
-    bad_use = None
-    n_update = 0
-    for n in walk_no_nested(loop):
-        if isinstance(n, ast.Name) and n.id in res_names and isinstance(n.ctx, ast.Load):
-            p = pm.get(n)
-            if isinstance(p, ast.Call) and n in p.args:
-                cn = call_name(p)
-                if cn == "update" and isinstance(p.func, ast.Attribute):
-                    n_update += 1
-                elif cn in ("isinstance",):
+        par = index.function(ST + ".TreeProcessor.parallel_analyze_trees")
+        loops = [n for n in walk_no_nested(par.node) if isinstance(n, ast.While)]
+        coll = [l for l in loops if any(call_name(c) == "get" and "results_queue" in norm(c.func) for c in calls_in(l))]
+        if len(coll) != 1:
+            raise AnalysisError("R06.5: collation loop in parallel_analyze_trees not found (shape not recognised)")
+        loop = coll[0]
+        cp = compare_parts(loop.test)
+        launch = [f for f in walk_no_nested(par.node) if isinstance(f, ast.For) and any(call_name(c) == "TreeAnalysisWorker" for c in calls_in(f))]
+        bound = None
+        if launch and isinstance(launch[0].iter, ast.Call) and call_name(launch[0].iter) == "range" and len(launch[0].iter.args) == 1:
+            bound = norm(launch[0].iter.args[0])
+        ok = bool(cp) and cp[1] == "Lt" and bound is not None and norm(cp[2]) == bound
+        rep.check(ok, "R06.5", par.qualname, "collation bound: " + norm(loop.test), fn_where(par, loop),
+                  "collation loop `%s` waits for as many results as workers launched (range(%s))" % (norm(loop.test), bound),
+                  "the collation loop's bound `%s` does not equal the number of workers launched (%s)" % (norm(loop.test), bound))
+        counter = norm(cp[0]) if cp else None
+        incs = [n for n in walk_no_nested(loop) if isinstance(n, ast.AugAssign) and norm(n.target) == counter]
+        ok = len(incs) == 1 and isinstance(incs[0].op, ast.Add) and const_value(incs[0].value) == 1
+        rep.check(ok, "R06.5", par.qualname, "collation counter increment", fn_where(par, loop),
+                  "result counter advances by exactly 1 per merged result", "the result counter is not advanced by exactly one per result")
+        # result variable only flows to isinstance / raise / update / attribute reads
+        res_names = set()
+        for n in walk_no_nested(loop):
+            if isinstance(n, ast.Assign) and isinstance(n.value, ast.Call) and call_name(n.value) == "get" and "results_queue" in norm(n.value.func):
+                res_names |= {t.id for t in n.targets if isinstance(t, ast.Name)}
+        pm = {}
+        for p in ast.walk(loop):
+            for c in ast.iter_child_nodes(p):
+                pm[c] = p
+        bad_use = None
+        n_update = 0
+        for n in walk_no_nested(loop):
+            if isinstance(n, ast.Name) and n.id in res_names and isinstance(n.ctx, ast.Load):
+                p = pm.get(n)
+                if isinstance(p, ast.Call) and n in p.args:
+                    cn = call_name(p)
+                    if cn == "update" and isinstance(p.func, ast.Attribute):
+                        n_update += 1
+                    elif cn in ("isinstance",):
+                        pass
+                    else:
+                        bad_use = p
+                elif isinstance(p, ast.Raise) or isinstance(p, ast.Attribute):
                     pass
-                else:
+                elif isinstance(p, (ast.Subscript, ast.Compare, ast.BinOp)):
                     bad_use = p
-            elif isinstance(p, ast.Raise) or isinstance(p, ast.Attribute):
-                pass
-            elif isinstance(p, (ast.Subscript, ast.Compare, ast.BinOp)):
-                bad_use = p
-    rep.check(bad_use is None and n_update == 1, "R06.5", par.qualname, "results combined only via update()", fn_where(par, loop),
-              "each worker result is merged by exactly one master.update(result); no index- or order-dependent use",
-              "a worker result is used other than through update(): %s" % (norm(bad_use) if bad_use is not None else "no update call"))
-    # settings agreement worker <-> master
-    winit = index.function(ST + ".TreeAnalysisWorker.__init__")
-    wcall = [c for c in calls_in(winit.node) if call_name(c) == "TreeArray"]
-    mcall = [c for c in calls_in(par.node) if call_name(c) == "TreeArray"]
-    launch_call = [c for c in calls_in(par.node) if call_name(c) == "TreeAnalysisWorker"]
-    if not (wcall and mcall and launch_call):
-        raise AnalysisError("R06.5: TreeArray construction sites in sumtrees not found")
-    wcall, mcall, launch_call = wcall[0], mcall[0], launch_call[0]
-    field_src = {}
-    for n in walk_no_nested(winit.node):
-        if isinstance(n, ast.Assign) and len(n.targets) == 1 and is_self_attr(n.targets[0]) and isinstance(n.value, ast.Name):
-            field_src[n.targets[0].attr] = n.value.id
-    for k in COMPARED_SETTINGS:
-        mv = get_kwarg(mcall, k)
-        wv = get_kwarg(wcall, k)
-        chain = None
-        if wv is not None and is_self_attr(wv) and wv.attr in field_src:
-            lv = get_kwarg(launch_call, field_src[wv.attr])
-            chain = norm(lv) if lv is not None else None
-        ok = mv is not None and chain is not None and norm(mv) == chain
-        rep.check(ok, "R06.5", par.qualname, "setting %s worker/master agreement" % k, fn_where(par, mcall),
-                  "TreeArray(%s=...) : master gets `%s`, workers get `%s`" % (k, norm(mv) if mv is not None else None, chain),
-                  "master and worker TreeArrays are constructed with different sources for `%s` (master `%s`, worker `%s`): update() compares this setting and the merge is rejected or silently inconsistent"
-                  % (k, norm(mv) if mv is not None else None, chain))
-    # labels handed to workers preserve namespace order
-    tlv = get_kwarg(launch_call, "taxon_labels")
-    tl = [n for n in walk_no_nested(par.node) if isinstance(n, ast.Assign) and tlv is not None and norm(n.targets[0]) == norm(tlv)]
-    ok = bool(tl) and isinstance(tl[0].value, ast.ListComp) and len(tl[0].value.generators) == 1 \
-        and norm(tl[0].value.generators[0].iter) == norm(get_kwarg(mcall, "taxon_namespace") or ast.Constant(None)) and not tl[0].value.generators[0].ifs
-    rep.check(ok, "R06.5", par.qualname, "taxon_labels order", fn_where(par, tl[0] if tl else None),
-              "worker namespaces are rebuilt from the master's labels in the master's order (same label -> same bit)",
-              "taxon_labels handed to the workers is not the master's namespace in iteration order: split bitmasks from different workers would not be comparable")
+        rep.check(bad_use is None and n_update == 1, "R06.5", par.qualname, "results combined only via update()", fn_where(par, loop),
+                  "each worker result is merged by exactly one master.update(result); no index- or order-dependent use",
+                  "a worker result is used other than through update(): %s" % (norm(bad_use) if bad_use is not None else "no update call"))
+        # settings agreement worker <-> master
+        winit = index.function(ST + ".TreeAnalysisWorker.__init__")
+        wcall = [c for c in calls_in(winit.node) if call_name(c) == "TreeArray"]
+        mcall = [c for c in calls_in(par.node) if call_name(c) == "TreeArray"]
+        launch_call = [c for c in calls_in(par.node) if call_name(c) == "TreeAnalysisWorker"]
+        if not (wcall and mcall and launch_call):
+            raise AnalysisError("R06.5: TreeArray construction sites in sumtrees not found")
+        wcall, mcall, launch_call = wcall[0], mcall[0], launch_call[0]
+        field_src = {}
+        for n in walk_no_nested(winit.node):
+            if isinstance(n, ast.Assign) and len(n.targets) == 1 and is_self_attr(n.targets[0]) and isinstance(n.value, ast.Name):
+                field_src[n.targets[0].attr] = n.value.id
+        for k in COMPARED_SETTINGS:
+            mv = get_kwarg(mcall, k)
+            wv = get_kwarg(wcall, k)
+            chain = None
+            if wv is not None and is_self_attr(wv) and wv.attr in field_src:
+                lv = get_kwarg(launch_call, field_src[wv.attr])
+                chain = norm(lv) if lv is not None else None
+            ok = mv is not None and chain is not None and norm(mv) == chain
+            rep.check(ok, "R06.5", par.qualname, "setting %s worker/master agreement" % k, fn_where(par, mcall),
+                      "TreeArray(%s=...) : master gets `%s`, workers get `%s`" % (k, norm(mv) if mv is not None else None, chain),
+                      "master and worker TreeArrays are constructed with different sources for `%s` (master `%s`, worker `%s`): update() compares this setting and the merge is rejected or silently inconsistent"
+                      % (k, norm(mv) if mv is not None else None, chain))
+        # labels handed to workers preserve namespace order
+        tlv = get_kwarg(launch_call, "taxon_labels")
+        tl = [n for n in walk_no_nested(par.node) if isinstance(n, ast.Assign) and tlv is not None and norm(n.targets[0]) == norm(tlv)]
+        ok = bool(tl) and isinstance(tl[0].value, ast.ListComp) and len(tl[0].value.generators) == 1 \
+            and norm(tl[0].value.generators[0].iter) == norm(get_kwarg(mcall, "taxon_namespace") or ast.Constant(None)) and not tl[0].value.generators[0].ifs
+        rep.check(ok, "R06.5", par.qualname, "taxon_labels order", fn_where(par, tl[0] if tl else None),
+                  "worker namespaces are rebuilt from the master's labels in the master's order (same label -> same bit)",
+                  "taxon_labels handed to the workers is not the master's namespace in iteration order: split bitmasks from different workers would not be comparable")
 
 
 def _root_of(e):
